@@ -245,7 +245,10 @@ pub fn make_module() -> KMap {
                 };
 
                 let mut cache = ValueMap::with_capacity(m.len());
-                m.data_mut().sort_by(|key_a, value_a, key_b, value_b| {
+                // The key function could access the map,
+                // so a copy of the data is sorted while the map isn't borrowed.
+                let mut data = m.data().clone();
+                data.sort_by(|key_a, value_a, key_b, value_b| {
                     if error.is_some() {
                         return Ordering::Equal;
                     }
@@ -283,6 +286,7 @@ pub fn make_module() -> KMap {
                 if let Some(error) = error {
                     error
                 } else {
+                    *m.data_mut() = data;
                     Ok(KValue::Map(m))
                 }
             }
